@@ -38,7 +38,13 @@ def dist_case(draw, tier):
             w = [x / s for x in w]
     sizes = [draw(st.integers(1, 5)) for _ in range(T)]
     N = draw(st.sampled_from([1, 2, 3, 5, 8, 13, 30, 60]) if tier == "quick" else st.integers(1, 200))
-    return {"keys": keys, "weights": w, "sizes": sizes, "N": N, "seed": draw(st.integers(0, 2 ** 32 - 1))}
+    c = {"keys": keys, "weights": w, "sizes": sizes, "N": N, "seed": draw(st.integers(0, 2 ** 32 - 1))}
+    if draw(st.integers(0, 3)) == 0:
+        # history on one loader object: sample, replace the distribution, sample again
+        k2 = [list(k) for k in draw(st.lists(st.tuples(*[st.integers(0, 6)] * T), min_size=1, max_size=4, unique=True))]
+        c["then"] = {"route": draw(st.sampled_from(["setter", "inplace", "convert", "empirical_reload"])),
+                     "keys": k2, "weights": [draw(st.integers(1, 9)) for _ in k2], "N": draw(st.sampled_from([1, 4, 20]))}
+    return c
 
 
 def strategy(tier):
@@ -87,42 +93,79 @@ def exists_decomposition(out, keys, sizes):
 
 
 def check(case):
-    from gcmpy import JointDegreeEmpirical, JointDegreeNames as JN, GCMAlgorithmFast, GCMAlgorithmNames as GN, clique_motif
+    from gcmpy import JointDegreeEmpirical, JointDegreeNames as JN
     ld, jdd = loader(case)
-    keys = list(jdd.keys())
     sizes = case["sizes"]
-    T = len(sizes)
-    N = case["N"]
-    with rng.seeded(case["seed"]), rng.spy_choices() as calls:
-        out = call("sample", ld.sample_jds_from_jdd, N)
     if case.get("stat"):
+        return verify(ld, jdd, sizes, case["N"], case["seed"], stat=True, case=case)
+    info = verify(ld, jdd, sizes, case["N"], case["seed"])
+    th = case.get("then")
+    if th:
+        new = {}
+        for k, w in zip(th["keys"], th["weights"]):
+            new[tuple(k)] = w
+        route = th["route"]
+        if route == "setter":
+            ld.jdd = dict(new)
+        elif route == "inplace":
+            for k in list(ld.jdd):
+                del ld.jdd[k]
+            ld.jdd.update(new)
+        elif route == "convert":
+            seq = [k for k, w in new.items() for _ in range(w)]
+            call("convert_jds_to_jdd", ld.convert_jds_to_jdd, seq)
+            new = {k: w / len(seq) for k, w in new.items()}
+        else:
+            seq = [k for k, w in new.items() for _ in range(w)]
+            ld = call("construct-empirical", JointDegreeEmpirical, {JN.JDS: list(jdd.keys()), JN.MOTIF_SIZES: list(sizes)})
+            with rng.seeded(case["seed"]):
+                call("sample", ld.sample_jds_from_jdd, 3)
+            ld.empirical_jds = seq
+            call("create_jdd", ld.create_jdd)
+            new = {k: w / len(seq) for k, w in new.items()}
+        if {k: float(v) for k, v in ld.jdd.items()} != {k: float(v) for k, v in new.items()}:
+            raise RuntimeError("harness: distribution replacement did not take effect")
+        info2 = verify(ld, new, sizes, th["N"], case["seed"] + 1, tag="after-replacing-distribution:")
+        info["classes"] = sorted(set(info["classes"]) | {"history_" + route})
+        info["nontrivial"] = info["nontrivial"] or info2["nontrivial"]
+    return info
+
+
+def verify(ld, jdd, sizes, N, seed, stat=False, case=None, tag=""):
+    from gcmpy import JointDegreeEmpirical, JointDegreeNames as JN, GCMAlgorithmFast, GCMAlgorithmNames as GN, clique_motif
+    keys = list(jdd.keys())
+    T = len(sizes)
+    case = case or {"weights": list(jdd.values()), "keys": [list(k) for k in keys], "sizes": sizes, "seed": seed}
+    with rng.seeded(seed), rng.spy_choices() as calls:
+        out = call(tag + "sample", ld.sample_jds_from_jdd, N)
+    if stat:
         cnt = {k: 0 for k in keys}
         for e in out:
             if tuple(e) in cnt:
                 cnt[tuple(e)] += 1
         tot = sum(cnt.values())
         if tot < N - sum(s - 1 for s in sizes):
-            raise Violation("too-many-perturbed", f"{N - tot} entries are not keys of the distribution")
+            raise Violation(tag + "too-many-perturbed", f"{N - tot} entries are not keys of the distribution")
         W = sum(case["weights"])
         obs = [cnt[tuple(k)] for k in case["keys"]]
         exp = [tot * w / W for w in case["weights"]]
         s, df, p = stats.chi2_test(obs, exp)
         if p < stats.ALPHA:
-            raise Violation("weights", f"keys not drawn in proportion to their weights: observed {obs}, expected "
+            raise Violation(tag + "weights", f"keys not drawn in proportion to their weights: observed {obs}, expected "
                                        f"{[round(x, 1) for x in exp]}, chi2={s:.1f} df={df} p={p:.3g}")
         return {"nontrivial": True, "classes": ["statistical"], "notes": {"p_weights": p}}
     if not isinstance(out, list) or len(out) != N:
-        raise Violation("length", f"sampled {len(out) if hasattr(out, '__len__') else out!r} joint degrees, asked for {N}")
+        raise Violation(tag + "length", f"sampled {len(out) if hasattr(out, '__len__') else out!r} joint degrees, asked for {N}")
     for e in out:
         if not isinstance(e, tuple):
-            raise Violation("entry-not-tuple", f"entry {e!r} is a {type(e).__name__}, not a joint degree tuple "
+            raise Violation(tag + "entry-not-tuple", f"entry {e!r} is a {type(e).__name__}, not a joint degree tuple "
                                                f"(unhashable / unusable as a joint degree); sequence {out}")
         if len(e) != T or not all(isinstance(x, int) and not isinstance(x, bool) and x >= 0 for x in e):
-            raise Violation("entry-malformed", f"entry {e!r} is not {T} non-negative ints")
+            raise Violation(tag + "entry-malformed", f"entry {e!r} is not {T} non-negative ints")
     cols = [sum(c) for c in zip(*out)]
     for c, s in zip(cols, sizes):
         if c % s:
-            raise Violation("handshake", f"column sums {cols} not divisible by motif sizes {sizes}")
+            raise Violation(tag + "handshake", f"column sums {cols} not divisible by motif sizes {sizes}")
     classes = set()
     raw = None
     big = [c for c in calls if c["k"] == N and [tuple(x) for x in c["population"]] == keys]
@@ -131,29 +174,29 @@ def check(case):
         classes.add("spied_raw_draw")
         diffs = [[a - b for a, b in zip(o, r)] for o, r in zip(out, raw)]
         if any(d < 0 for row in diffs for d in row):
-            raise Violation("stub-removed", f"a stub was removed: raw {raw} -> {out}")
+            raise Violation(tag + "stub-removed", f"a stub was removed: raw {raw} -> {out}")
         added = [sum(c) for c in zip(*diffs)]
         need = [(-sum(c)) % s for c, s in zip(zip(*raw), sizes)]
         if added != need:
-            raise Violation("not-minimal", f"stubs added per topology {added}, fewest that achieve divisibility {need}; "
+            raise Violation(tag + "not-minimal", f"stubs added per topology {added}, fewest that achieve divisibility {need}; "
                                            f"raw {raw} -> {out}, sizes {sizes}")
         nt = any(need)
     else:
         classes.add("existence_predicate")
         if not exists_decomposition(out, keys, sizes):
-            raise Violation("not-minimal-perturbation", f"{out} is not N draws of {keys} plus < size added stubs per topology (sizes {sizes})")
+            raise Violation(tag + "not-minimal-perturbation", f"{out} is not N draws of {keys} plus < size added stubs per topology (sizes {sizes})")
         nt = any(e not in set(keys) for e in out)
     # usable wherever a joint degree sequence is accepted
-    emp = call("usable-empirical", JointDegreeEmpirical, {JN.JDS: list(out), JN.MOTIF_SIZES: list(sizes)})
+    emp = call(tag + "usable-empirical", JointDegreeEmpirical, {JN.JDS: list(out), JN.MOTIF_SIZES: list(sizes)})
     if abs(sum(emp.jdd.values()) - 1) > 1e-9:
-        raise Violation("usable-empirical", "empirical loader of the sampled sequence does not sum to 1")
+        raise Violation(tag + "usable-empirical", "empirical loader of the sampled sequence does not sum to 1")
     gen = GCMAlgorithmFast({GN.MOTIF_SIZES: list(sizes), GN.BUILD_FUNCTIONS: [clique_motif] * T,
                             GN.EDGE_NAMES: [f"t{i}" for i in range(T)]})
     with rng.seeded(case["seed"]):
-        el = call("usable-generator", gen.random_clustered_graph, list(out))
+        el = call(tag + "usable-generator", gen.random_clustered_graph, list(out))
     want_edges = sum(c // s * (s * (s - 1) // 2) for c, s in zip(cols, sizes))
     if len(el.edge_list) != want_edges:
-        raise Violation("usable-generator", f"generator produced {len(el.edge_list)} edges from the sampled sequence, expected {want_edges}")
+        raise Violation(tag + "usable-generator", f"generator produced {len(el.edge_list)} edges from the sampled sequence, expected {want_edges}")
     if 1 in sizes:
         classes.add("size_1_topology")
     if abs(sum(case["weights"]) - 1) > 1e-9:
